@@ -10,7 +10,7 @@ PROPERTY_TASKS = {
             "C07/connect", "C07/disconnect", "C07/remove", "C07/set_output", "C07/add[default]", "C07/add[uid]"],
     "C12": ["layer1/Circuit.fanin", "layer1/Circuit.fanout", "layer1/Circuit.startpoints", "layer1/Circuit.endpoints",
             "layer1/Circuit.inputs", "layer1/Circuit.outputs"],
-    "C01": ["C01/cnf", "layer1/Circuit.type", "layer1/Circuit.fanin", "layer1/Circuit.nodes"],
+    "C01": ["C01/cnf", "C01/add_assumptions", "C01/solve[no assumptions]", "C01/solve[assumptions]", "layer1/Circuit.type", "layer1/Circuit.fanin", "layer1/Circuit.nodes"],
     "C04": ["C04/miter[self,default]", "C04/miter[pair,default]", "C04/miter[pair,explicit]", "C04/miter-encoding-lemma",
             "layer1/Circuit.add[default]", "layer1/Circuit.connect", "layer1/Circuit.startpoints", "layer1/Circuit.endpoints"],
     "C13": ["C13/clog2"],
@@ -20,6 +20,9 @@ PROPERTY_TASKS = {
 }
 
 TRUSTED_BASE = [
+    "assumed contract of pysat (IDPool.id injective; CNF.append; Solver.solve sound and complete for the added clauses; get_model indexes every variable occurring in a clause) -- python-sat is absent, the shim is written to this contract",
+    "assumed contract of Circuit.add_subcircuit (contracts/layer2.py), bounded-checked by C06",
+    "meta-lemmas: M1, M2 (Lean-checked, /verif/lean), M5 (consistency is invariant under graph isomorphism), M6 (a valuation of the nodes extends to the parity auxiliaries by structural recursion)",
     "z3 5.1 (python API) / z3 4.8.12 / cvc5 1.0.3 as back ends",
     "pyvc itself (the VC generator written for this task: /verif/pyvc)",
     "assumed contracts of networkx.DiGraph operations and Python containers (pyvc/models.py), conformance-tested, not verified",
